@@ -447,9 +447,20 @@ func (w *Worktree) AddGlob(pattern string) error {
 	}
 
 	// TODO(mcuadros): deprecate in favor of AddWithOption in v6.
-	files, err := util.Glob(w.filesystem, pattern)
+	matches, err := util.Glob(w.filesystem, pattern)
 	if err != nil {
 		return err
+	}
+
+	// The repository directory is listed with the rest of the worktree root
+	// ("*" matches ".git"), but it is never part of the worktree and the
+	// worktree filesystem refuses to stat it.
+	files := matches[:0]
+	for _, file := range matches {
+		if file == GitDirName || strings.HasPrefix(filepath.ToSlash(file), GitDirName+"/") {
+			continue
+		}
+		files = append(files, file)
 	}
 
 	if len(files) == 0 {
